@@ -261,8 +261,8 @@ def r5(c):
         tr = loop.target.id
         ren = lambda s_: {f"{tr}.exc is None": "no_exc"}.get(s_, s_)
         fs, ff = gm.formula(st["success"], G.GuardEnv(rename=ren)), gm.formula(st["fail"], G.GuardEnv(rename=ren))
-        ok = G.equivalent(fs, G.Atom("no_exc")) and G.equivalent(ff, G.Not(G.Atom("no_exc"))) and all(norm(x.targets[0].slice) == f"{tr}.device_id" for x in st.values())
-        ok = ok and norm(st["success"].value) == f"{tr}.result" and norm(st["fail"].value) == f"{tr}.exc"
+        ok = G.equivalent(fs, G.Atom("no_exc")) and G.equivalent(ff, G.Not(G.Atom("no_exc"))) and all(norm(pv.resolve_alias(x.targets[0].slice)) == f"{tr}.device_id" for x in st.values())
+        ok = ok and norm(pv.resolve_alias(st["success"].value)) == f"{tr}.result" and norm(pv.resolve_alias(st["fail"].value)) == f"{tr}.exc"
     c.check("C12.R5", ok, repo.loc(m, fn), "run/partition", "results are not split into success/fail by `exc is not None`, keyed by device id, with result/exc as values", key_text="partition")
     ok = loop is not None and "self.irun(device_ids" in norm(pv.resolve_alias(loop.iter)) and not [x for x in walk_no_nested(loop) if isinstance(x, (ast.Break, ast.Continue, ast.Return))]
     c.check("C12.R5", ok, repo.loc(m, fn), "run/consumes-all", "run does not consume every result of irun", key_text="consume")
